@@ -399,14 +399,14 @@ func (fc *FnCtx) doCall(x *ssa.Call) {
 func (fc *FnCtx) dispatchCall(s *CallSite, pure bool) {
 	// 1. contract on a function of the repository
 	if s.callee != nil {
-		if ct := fc.eng.ContractFor(s.callee); ct != nil {
+		if ct := fc.eng.ContractForIn(s.callee, fnPkgPath(fc.fn)); ct != nil {
 			fc.applyContract(s, ct, s.callee)
 			return
 		}
 	}
 	// 2. assumed interface/extern contracts, library models
 	for _, k := range s.keys {
-		if ct := fc.eng.Contracts[k]; ct != nil && ct.Assumed {
+		if ct := fc.eng.Assumed(fnPkgPath(fc.fn), k); ct != nil {
 			fc.applyContract(s, ct, nil)
 			return
 		}
@@ -1010,7 +1010,7 @@ func (fc *FnCtx) runDeferred(d *ssa.Defer, x *ssa.RunDefers, certain bool) {
 	}
 	callee := fc.resolveCallee(d)
 	if callee != nil && certain {
-		if ct := fc.eng.ContractFor(callee); ct != nil {
+		if ct := fc.eng.ContractForIn(callee, fnPkgPath(fc.fn)); ct != nil {
 			if _, done := fc.vals[d.Common().Value]; done || d.Common().StaticCallee() != nil {
 				s := fc.buildSite(d)
 				fc.applyContract(s, ct, callee)
